@@ -12,6 +12,8 @@ HARNESSES = [
     dict(name="filter_asan", src="props/filter.cpp", variant="asan"),
     dict(name="formats", src="props/formats.cpp", variant="plain"),
     dict(name="combine", src="props/combine.cpp", variant="plain"),
+    dict(name="traps", src="props/traps.cpp", variant="plain"),
+    dict(name="traps_asan", src="props/traps.cpp", variant="asan"),
     dict(name="formats_asan", src="props/formats.cpp", variant="asan"),
 ]
 
@@ -143,4 +145,25 @@ CHECKS["C01"] = dict(
     assumptions=["reference models in harness/ref_combine.hpp are written from the Render protocol and PDF 1.7 blend-mode equations",
                  "real-valued classes are asserted on premultiplied-valid inputs only (the statement says 'applied to the premultiplied inputs'); arbitrary values are asserted in the exact class",
                  "tolerance 2 steps for the 8-bit blend modes (MULTIPLY rounds three products separately: 1.5 steps worst case on the unchanged code)"],
+)
+
+CHECKS["C12"] = dict(
+    level="exploration",
+    rule=("rapidcheck cases: a1/a4/a8 images 1-40 x 1-24 (incl. widths 1,31,32,33,64, padded strides, zero/random/full prefill), "
+          "trapezoids whose top/bottom and line points are biased onto pixel boundaries, sample rows/columns +-2 units and 1/16 "
+          "steps, lines spanning or not spanning the trapezoid's height, shapes partly/wholly outside, x/y offsets -40..40. Laws: "
+          "(model) every pixel equals the saturating count of grid samples with X_l <= x < X_r, top <= y < bottom computed in exact "
+          "rational arithmetic (pixels where an edge passes within 2 units of a sample point are skipped and counted); horizontal "
+          "split, edge split with the middle line given by the same two points, whole-pixel offset commutation, triangle = "
+          "independent two-trapezoid decomposition and permutation invariance, add_traps = rasterize of the equivalent trapezoid, "
+          "composite_trapezoids(op in CLEAR..SATURATE, solid/bits source, 6 destination formats) = rasterise into a zeroed mask + "
+          "composite32. Non-trivial = some sample covered and a non-vertical edge (law dependent)."),
+    jobs=[
+        dict(harness="traps", prop="traps", cases=T(40000, 800000), procs=T(8, 14)),
+        dict(harness="traps_asan", prop="traps", cases=T(5000, 100000), procs=T(2, 2)),
+    ],
+    floor=T(200000, 5000000), nt_floor=T(50000, 500000),
+    assumptions=["sample grid positions follow Render's N_X_FRAC x N_Y_FRAC layout (first = (1 - (N-1)*floor(1/N))/2, spacing floor(1/N))",
+                 "tie handling (edge exactly through a sample point) is not pinned by the statement: such pixels are excluded from the model check and law mismatches confined to them are the known finding S17",
+                 "requests whose edge x at an image row leaves +-2^30 units are skipped (not representable for the edge walker)"],
 )
